@@ -26,7 +26,7 @@ def mutate(rng, doc):
             return ' '.join(out)
         where = rng.choice(['<t:item ', '<t:sub ', '<t:item '])
         return doc.replace('<t:r ', '<t:r ' + uniq(syn) + ' ', 1).replace(where, where + uniq(reb) + ' ', rng.randrange(1, 3))
-    if op == 'truncate': return doc[:rng.randrange(1, len(doc))]
+    if op == 'truncate': return doc[:rng.randrange(1, len(doc))] if len(doc) > 1 else doc
     if op == 'garble':
         i = rng.randrange(len(doc)); return doc[:i] + rng.choice(['<', '>', '&', '\x00', '"', '</']) + doc[i + 1:]
     if op == 'lex':
@@ -142,12 +142,14 @@ def eval_blocked(args):
 
 
 def run(tier, seed, open_findings):
-    rng = random.Random(seed); n = 1200 if tier == 'thorough' else 300
+    rng = random.Random(seed); n = 12000 if tier == 'thorough' else 300
     docs = []
     for _ in range(n):
         d = docgen.gen(rng, rng.randrange(1, 4))
         for _ in range(rng.randrange(1, 3)): d = mutate(rng, d)
         docs.append(d)
+    # sources that are not XML text at all (a str that does not start with '<' is taken as a location)
+    docs += ['', ' ', '\x00<t:r xmlns:t="urn:t"/>', 'a\x00b.xml', '<', '<t:r', '</t:r>', 'plain text', '\ufeff<t:r xmlns:t="urn:t"/>', 'file:///nonexistent/\x00', 'http://[bad', '\\\\unc\\x', 'C:\\x.xml', '%zz', '<?xml version="9"?><r/>', '<!DOCTYPE']
     jobs = [(ver, d) for d in docs for ver in ('1.0', '1.1')]
     res = pmap(eval_doc, jobs)
     fails = []; mknown = {}
